@@ -15,7 +15,7 @@ import tempfile  # noqa: F401 - imported in the template (its private name gener
 import tokenize  # noqa: F401 - imported in the template so that SimFS can patch its captured open()
 import uuid  # noqa: F401
 
-from .core import OPTION_NAMES, OPTION_SPACE, cjson, derive_seed, digest, normalise, sha_text
+from .core import OPTION_NAMES, OPTION_SPACE, as_value, cjson, derive_seed, digest, normalise, sha_text
 from .simfs import CWD, Patches, SimFS
 from .worker import fork_run
 
@@ -180,12 +180,13 @@ def child_cli(desc: dict) -> dict:
     fs.set_links(fsd.get("links"))
     keep = set()
     if desc.get("out_path") is not None:
-        keep.add(fs.resolve(SimFS.norm(desc["out_path"])))
-        keep.add(SimFS.norm(desc["out_path"]))
+        keep.add(fs.resolve(SimFS.norm(desc.get("out_key") or desc["out_path"])))
+        keep.add(SimFS.norm(desc.get("out_key") or desc["out_path"]))
         keep.update(SimFS.norm(v) for v in (fsd.get("links") or {}).values())
     initial = fs.snapshot(keep)
     patches = Patches(fs)
     old = (sys.argv, sys.stdout, sys.stderr)
+    old_stdin = sys.stdin
     err = io.StringIO()
     status = None
     exc = None
@@ -219,6 +220,8 @@ def child_cli(desc: dict) -> dict:
     try:
         sys.argv = ["oneliner"] + list(desc["argv"])
         sys.stdout = fs.make_stdout()
+        # simulated standard input: empty (the command is started with </dev/null); reading it is recorded
+        sys.stdin = io.TextIOWrapper(io.BytesIO(b""), encoding="utf-8")
         sys.stderr = None if (desc.get("knobs") or {}).get("stderr_closed") else err
         try:
             if desc.get("trace_main") or intr is not None:
@@ -252,6 +255,7 @@ def child_cli(desc: dict) -> dict:
     finally:
         out_obj = sys.stdout
         sys.argv, sys.stdout, sys.stderr = old
+        sys.stdin = old_stdin
         _warnings.filters[:] = saved_filters
         patches.uninstall()
     del out_obj
@@ -276,7 +280,7 @@ def child_exp(arg) -> dict:
     try:
         for n in OPTION_NAMES:
             if n in model:
-                setattr(o, n, model[n])
+                setattr(o, n, as_value(model[n]))
         conv = oneliner.convert_code_string(text, configs=o)
     except BaseException as e:  # noqa: BLE001
         return {"out": "exc", "exc": [type(e).__name__, _ADDR_RE.sub("0x?", str(e))[:300]]}
@@ -420,11 +424,12 @@ def gen_base(seed: int, attr_names=None) -> dict:
     # ---- input -----------------------------------------------------------------------
     in_kind = rng.choice(["pool"] * 13 + ["special"] * 5 + ["absent", "dir", "unreadable"])
     in_fifo = in_kind == "pool" and rng.random() < 0.08  # named pipe / process substitution: readable, not a regular file
-    in_path = rng.choice(["in.py", "in.py", "src/main.py", "\u00e9ntr\u00e9e.py", "in[1].py", "my in.py", "./in.py", "@in.py", "src/../in2.py", "~/in.py"])
+    in_path = rng.choice(["in.py", "in.py", "src/main.py", "\u00e9ntr\u00e9e.py", "in[1].py", "my in.py", "./in.py", "@in.py", "src/../in2.py", "~/in.py", "-"])
     out_path = rng.choice(["out.txt", "out.txt", "build/out.py", "r\u00e9sultat.txt", "out[1].txt", "my out.txt", "./out.txt",
                            "build/../out2.txt", "~out.txt", "out.txt~", "~/out.txt", "0", "None"])
     files, dirs, ro, unreadable = {}, set(), [], []
     links: dict = {}
+    out_key = None
     for p in (in_path, out_path):
         if "/" in p:
             dirs.add(p.rsplit("/", 1)[0])
@@ -468,7 +473,7 @@ def gen_base(seed: int, attr_names=None) -> dict:
     if out_mode != "stdout":
         out_state = rng.choice(["absent", "absent", "absent", "shorter", "shorter", "longer", "longer", "same_as_in", "same_as_in",
                                 "missing_dir", "missing_dir", "is_dir", "is_dir", "not_writable", "not_writable", "ro_dir", "ro_dir",
-                                "empty_name", "symlink_longer", "symlink_longer", "symlink_dangling"])
+                                "empty_name", "symlink_longer", "symlink_longer", "symlink_dangling", "via_dir_symlink"])
         if out_state == "shorter":
             # (what OUT held before is arbitrary: text, Latin-1 text, binary)
             files[out_path] = rng.choice([b"old", b"old", b"\xe9t\xe9 en latin-1", b"\x00\x01\xff\xfe bin"])
@@ -494,6 +499,15 @@ def gen_base(seed: int, attr_names=None) -> dict:
             links[out_path] = "real_target.txt"
             if out_state == "symlink_longer":
                 files["real_target.txt"] = b"%" * 7000
+        elif out_state == "via_dir_symlink":
+            # OUT is spelled through a symbolic link to a directory followed by '..': the kernel resolves
+            # the link first (-> real/out3.txt); a lexical normalisation (abspath/normpath) names ./out3.txt
+            out_path = "lnk/../out3.txt"
+            out_key = "real/out3.txt"
+            dirs.update(["real", "real/sub"])
+            links["lnk"] = "real/sub"
+            if rng.random() < 0.7:
+                files[out_key] = rng.choice([b"old", b"=" * 9000])
         elif out_state == "ro_dir":
             out_path = "rodir/out.txt"
             dirs.add("rodir")
@@ -537,7 +551,7 @@ def gen_base(seed: int, attr_names=None) -> dict:
         parts.append({"kind": "item", "item": dangling[0], "argv": ["-C"]})
     roles = {in_path: "IN"}
     if out_mode != "stdout":
-        roles[out_path] = "OUT" if out_path != in_path else "IN"
+        roles[out_key or out_path] = "OUT" if out_path != in_path else "IN"
     knobs = {
         "buffer_size": rng.choice([8192, 8192, 1, 7, 64, 300]),
         "stdout_buffer": rng.choice([8192, 16, 200]),
@@ -551,7 +565,7 @@ def gen_base(seed: int, attr_names=None) -> dict:
     return materialise({
         "prop": "C16", "seed": seed, "parts": parts, "out_mode": "stdout" if out_mode == "stdout" else "file",
         "in_path": in_path, "out_path": None if out_mode == "stdout" else out_path, "in_state": in_state,
-        "out_state": out_state, "prog": prog, "variant": variant, "special": special,
+        "out_state": out_state, "out_key": out_key, "prog": prog, "variant": variant, "special": special,
         "fs": {"files": {p: files[p].hex() for p in sorted(files)}, "dirs": sorted(dirs), "ro": ro, "unreadable": unreadable,
                "fifos": [in_path] if in_fifo and out_state != "same_as_in" else [], "links": links},
         "roles": roles, "knobs": knobs, "plan": [],
@@ -563,7 +577,7 @@ def follow_up(base: dict, res: dict, seed: int):
     run 2 must not depend on what run 1 wrote.  Returns a new base descriptor or None."""
     if res["status"] != 0 or base["in_state"] != "present":
         return None
-    if any(it["cls"] in INVALID_CLASSES for it in base["items"]) or base["out_state"] == "same_as_in":
+    if any(it["cls"] in INVALID_CLASSES for it in base["items"]) or base["out_state"] in ("same_as_in", "via_dir_symlink"):
         return None
     rng = _random.Random(derive_seed(seed, "followup"))
     if base["out_mode"] == "stdout":
@@ -736,6 +750,7 @@ def single_fault_plans(result: dict, desc: dict | None = None) -> list:
         kinds = list(FAULT_KINDS[op])
         if role == "STDOUT" and op == "write":
             kinds.append("EPIPE")
+            kinds.append("WOULDBLOCK")  # stdout is a non-blocking pipe that is full: the raw write returns None
         for k in kinds:
             f = {"at": seq, "op": op, "kind": k}
             if k == "short":
@@ -824,7 +839,7 @@ def judge(ctx: C16Ctx, desc: dict, res: dict) -> list:
     initial, final = res["initial"], res["final"]
     status = res["status"]
     in_p = SimFS.norm(desc["in_path"])
-    out_p = SimFS.norm(desc["out_path"]) if desc["out_path"] else None
+    out_p = SimFS.norm(desc.get("out_key") or desc["out_path"]) if desc["out_path"] else None
     fired = res["fired"]
     error_fault = any(f["kind"] not in BENIGN for f in fired)
     if desc["knobs"].get("warnings_error") and any(it["cls"] == "legacy" for it in desc["items"]):
